@@ -1,0 +1,31 @@
+//go:build verif
+
+// Contracts for the govc verifier (see /verif/DESIGN.md). Comment-only file: with the
+// "verif" build tag off it is not compiled; with it on it contains only the package clause.
+
+package cache
+
+// ---- C02: a reader served from the in-memory / fd LRU keeps its LRU reference until it is closed ----
+// lruTaken[c] / lruGiven[c]: references taken from LRU cache c by hits of Get, and given back by their release
+// functions. The bytes.Reader handed out on a memory hit aliases the pooled buffer of the entry, which is recycled
+// when the last reference is dropped: Get itself must not give the reference back.
+//@ ghost lruTaken map[ref]int
+//@ ghost lruGiven map[ref]int
+//@ func util/cacheutil.(*LRUCache).Get
+//@   trusted
+//@   modifies lruTaken[*]
+//@   ensures ok ==> done != nil && value != nil && lruTaken[ref(c)] == old(lruTaken[ref(c)]) + 1
+//@   ensures !ok ==> lruTaken[ref(c)] == old(lruTaken[ref(c)])
+//@   ensures forall x ref :: x != ref(c) ==> lruTaken[x] == old(lruTaken[x])
+//@ func util/cacheutil.(*LRUCache).Get#done
+//@   modifies lruGiven[*]
+//@   ensures lruGiven[ref(self)] == old(lruGiven[ref(self)]) + 1
+//@   ensures forall x ref :: x != ref(self) ==> lruGiven[x] == old(lruGiven[x])
+//@ func (dc *directoryCache) Get
+//@   props C02
+//@   requires dc.cache != nil && dc.fileCache != nil && len(key) >= 2 && (forall j int :: 0 <= j && j < len(opts) ==> opts[j] != nil)
+//@   assume after "opt = o(opt)" : opt != nil
+//@   loop 0 invariant opt != nil
+//@   assume after "if b, done, ok := dc.cache.Get(key); ok {" : ok ==> typeof(b) == tagof("*bytes.Buffer") && payload(b) != nil
+//@   assume after "if f, done, ok := dc.fileCache.Get(key); ok {" : ok ==> typeof(f) == tagof("*os.File")
+//@   ensures[C02] forall x ref :: lruGiven[x] == old(lruGiven[x])
